@@ -26,12 +26,12 @@ def jsonOfVal : Val → Json
   | .bool b => .arr #[.str "b", .bool b]
   | .ip s => .arr #[.str "ip", .str s]
 
-def fieldsOfJson (j : Json) : Option (Fields Val) :=
+def fieldsOfJson (kind : Kind) (j : Json) : Option (Fields Val) :=
   match j with
   | .obj kvs =>
     kvs.foldl (fun acc k v => match acc, valOfJson v with
       | some f, some x => some (f.set k (some x))
-      | _, _ => none) (some freshFields)
+      | _, _ => none) (some (freshOf kind))
   | _ => none
 
 def keysOf (T : KindTable) : List String := (T.fromRows.map (·.key) ++ T.settable).eraseDups
@@ -47,7 +47,7 @@ def jsonOfProps (T : KindTable) (p : Props String) : Json :=
 partial def treeOfJson (j : Json) : Option (Sliver Val) := do
   let k ← (j.getObjValAs? String "k").toOption
   let id := (j.getObjValAs? String "id").toOption
-  let f ← fieldsOfJson (j.getObjValD "f")
+  let f ← fieldsOfJson k (j.getObjValD "f")
   let cs ← match j.getObjValD "c" with
     | .arr xs => xs.toList.mapM treeOfJson
     | _ => some []
@@ -107,10 +107,10 @@ def runOps (dom : List String) (T : KindTable) (E : ElemClass) (p0 : Props Strin
     match op with
     | .arr #[.str "set", .str k, v] =>
       match valOfJson v with
-      | some x => .str "ok" :: runOps dom T E (setProperty concrete T freshFields p k x) nms rest
+      | some x => .str "ok" :: runOps dom T E (setProperty concrete T (freshOf T.kind) p k x) nms rest
       | none => .str "bad-value" :: runOps dom T E p nms rest
     | .arr #[.str "setnone", .str k] =>
-      match setPropertyOpt concrete T E freshFields p k none with
+      match setPropertyOpt concrete T E (freshOf T.kind) p k none with
       | .ok p' => .str "ok" :: runOps dom T E p' nms rest
       | .error e => errJ e :: runOps dom T E p nms rest
     | .arr #[.str "setprops", .arr kvs] =>
@@ -118,14 +118,14 @@ def runOps (dom : List String) (T : KindTable) (E : ElemClass) (p0 : Props Strin
       let kw := kvs.toList.filterMap fun kv => match kv with
         | .arr #[.str k, v] => some (k, valOfJson v)
         | _ => none
-      match setProperties concrete T freshFields p kw with
+      match setProperties concrete T (freshOf T.kind) p kw with
       | .ok p' => .str "ok" :: runOps dom T E p' nms rest
       | .error e => errJ e :: runOps dom T E p nms rest
     | .arr #[.str "attrset", .str a, v] =>
       match E.routes.find? (fun r => r.attr == a) with
       | none => .str "no-route" :: runOps dom T E p nms rest
       | some r =>
-        let res := attrAssign concrete T E wrapNoneVal freshFields p r (valOfJson v)
+        let res := attrAssign concrete T E wrapNoneVal (freshOf T.kind) p r (valOfJson v)
         if r.get == GetForm.cached then
           -- the name setter caches the value (in the handle it is called on) before or after the write, as the table says
           match res with
@@ -165,7 +165,7 @@ def domOf (T : KindTable) (kvs : Std.TreeMap.Raw String Json compare) : List Str
 def handle (j : Json) : Json :=
   match j with
   | .arr #[.str "props", .str kind, f] =>
-    match fieldsOfJson f with
+    match fieldsOfJson kind f with
     | some s =>
       let T := tableOf kind
       let p := toProps concrete T s
